@@ -132,6 +132,7 @@ from .iter_elim import (
     destructure_subst,
     index_access,
     is_access_path,
+    may_mutate,
     plan_for_zip,
 )
 
@@ -179,7 +180,7 @@ class _ZipElimInstance(DefaultTransformVisitor):
 
     def _visit_for(self, stmt: ForStmt, ctx: Ctx):
         plan = _plan(stmt.target, stmt.iterable)
-        if plan is None:
+        if plan is None or may_mutate(stmt.body):
             return super()._visit_for(stmt, ctx)
         # Recursively rewrite the body first, in case it contains
         # nested zip patterns.
@@ -224,6 +225,8 @@ class _ZipElimInstance(DefaultTransformVisitor):
     # List comprehensions
 
     def _visit_list_comp(self, e: ListComp, ctx: Any):
+        if may_mutate(e.elt):
+            return super()._visit_list_comp(e, ctx)
         new_targets: list[Id | TupleBinding] = []
         new_iterables: list[Expr] = []
         subst: dict[NamedId, Expr] = {}
